@@ -160,6 +160,14 @@ def run(pid, tier):
     mcst = V.mc('MC_Server', 'MC_Server.cfg', timeout=1800, xmx='8g')
     if mcst['violated']:
         raise V.Infra('MC_Server violated (specification error):\n' + mcst['out'][-2500:])
+    # deferred answers: the closed model, and the two defective variants it has to tell from it (seeded changes C07-g, C10-h)
+    df = V.mc('MC_Defer', 'MC_Defer.cfg', must_fire=['Arrive', 'Release', 'Answer'], workers=4, timeout=600)
+    if df['violated']:
+        raise V.Infra('MC_Defer violated (specification error):\n' + df['out'][-2500:])
+    for cfgn, inv in (('MC_Defer_repeat.cfg', 'AnswerAfterReleaseI'), ('MC_Defer_acknon.cfg', 'NonNeverAckedI')):
+        ng = V.tlc('MC_Defer', cfgn, workers=1, deque=False, timeout=300)
+        if 'Invariant %s is violated' % inv not in ng['out']:
+            raise V.Infra('MC_Defer sanity: %s does not violate %s' % (cfgn, inv))
     reqs = gen(tier, rnd)
     # group by table, split into cases of 150 requests, round-robin over chunks
     cases, cid = [], 0
